@@ -407,6 +407,22 @@ def run_job(job):
     P = S.Placement.from_json(pj)
     try:
         built = S.build(S.entry_for(cid), P)
+        if pj.get("moved"):
+            # the same shape, created at the canonical placement and MOVED to P afterwards with scale / rotate / translate:
+            # it is the same blocking as the one created in place (expectations are those of the placement P)
+            can = S.build(S.entry_for(cid), S.Placement(signs=P.signs, k=P.k))
+            R = np.asarray(P.R, dtype=float)
+            ang = float(np.arccos(max(-1.0, min(1.0, (np.trace(R) - 1.0) / 2.0))))
+            ax = np.array([R[2, 1] - R[1, 2], R[0, 2] - R[2, 0], R[1, 0] - R[0, 1]])
+            with warnings.catch_warnings():
+                warnings.simplefilter("ignore")
+                for ent in can.entities:
+                    ent.scale(P.s, [0.0, 0.0, 0.0])
+                    if ang > 1e-9 and np.linalg.norm(ax) > 1e-9:
+                        ent.rotate(ang, list(ax), [0.0, 0.0, 0.0])
+                    ent.translate(list(P.t))
+            built.entities = can.entities
+            built.shapes = can.shapes
         ob = observe(built)
     except Exception as ex:
         return dict(cid=cid, placement=pj, err="%s: %s" % (type(ex).__name__, str(ex)[:200]), gen=isinstance(ex, GenError))
@@ -663,6 +679,15 @@ class C11(Prop):
         for _ in range(ctx.n(16, 600)):
             k = rng.randrange(len(entries))
             jobs.append((entries[k]["cid"], S.random_placement(rng).to_json(), None))
+            table.append(k)
+        # created at the canonical placement and moved afterwards (every family once per run, plus random ones)
+        for fam, ks in fams.items():
+            k = rng.choice(ks)
+            jobs.append((entries[k]["cid"], dict(S.random_placement(rng).to_json(), moved=True), None))
+            table.append(k)
+        for _ in range(ctx.n(12, 300)):
+            k = rng.randrange(len(entries))
+            jobs.append((entries[k]["cid"], dict(S.random_placement(rng).to_json(), moved=True), None))
             table.append(k)
         for _ in range(ctx.n(14, 300)):
             steps = S.random_chain(rng)
